@@ -231,9 +231,110 @@ def length_obligations(ctx, rep, rule):
                 "; ".join(sorted(problems)), key=f"{rule}|{h.qualname}|" + ";".join(sorted(problems)))
 
 
+# ------------------------------------------------------------------- R04f
+def _config_key(node, func, defs=None):
+    """Option name when `node` is derived from config.get('pygopherd', <name>) through locals,
+    eval(), str methods, list()/dict() or a filtering comprehension; None otherwise."""
+    from ..facts import expand_ast
+
+    e = expand_ast(node, func, defs)
+    for _ in range(8):
+        if isinstance(e, ast.Call) and isinstance(e.func, ast.Attribute) and e.func.attr in ("get", "getboolean", "getint") \
+                and len(e.args) >= 2 and isinstance(e.args[0], ast.Constant) and e.args[0].value == "pygopherd" \
+                and isinstance(e.args[1], ast.Constant) and "config" in norm(e.func.value):
+            return e.args[1].value
+        if isinstance(e, ast.Call) and isinstance(e.func, ast.Name) and e.func.id in ("eval", "list", "dict", "tuple", "sorted") and e.args:
+            e = e.args[0]
+        elif isinstance(e, ast.Call) and isinstance(e.func, ast.Attribute) and e.func.attr == "literal_eval" and e.args:
+            e = e.args[0]
+        elif isinstance(e, ast.Call) and isinstance(e.func, ast.Attribute) and e.func.attr in ("split", "strip", "items"):
+            e = e.func.value
+        elif isinstance(e, (ast.ListComp, ast.GeneratorExp)) and len(e.generators) == 1 and norm(e.elt) == norm(e.generators[0].target):
+            e = e.generators[0].iter
+        else:
+            return None
+    return None
+
+
+def mime_table_obligations(ctx, rep, rule):
+    """The MIME tables are the configured ones: init_mimetypes() empties the encodings table before
+    storing the configured pairs, stores nothing else in it, loads the configured type files, and is
+    run by the start-up sequence."""
+    from ..structure import module_func
+
+    prog = ctx.prog
+    f = next((x for x in prog.all_functions() if x.qualname == "initialization.init_mimetypes"), None)
+    if f is None:
+        rep.fail(rule, "initialization.init_mimetypes", detail="MIME table initialisation not found")
+        return
+    rep.analysed(f.qualname)
+    TABLE = "mimetypes.encodings_map"
+    w = Walker(prog, ctx.resolver)
+    problems = set()
+    n_ok = 0
+    for p in w.run(f, None):
+        if p.kind == "raise":
+            continue
+        cleared = False
+        stored = False
+        inited = False
+        for e in p.events:
+            n = e.node
+            if e.kind == "call" and isinstance(n.func, ast.Attribute):
+                recv = norm(n.func.value)
+                if recv == TABLE and n.func.attr == "clear":
+                    cleared = True
+                elif recv == TABLE and n.func.attr in ("update", "setdefault", "__setitem__"):
+                    if not cleared:
+                        problems.add("configured encodings are stored without the built-in table having been emptied first")
+                    src = n.args[0] if n.args else None
+                    if src is None or _config_key(src, f, e.defs) != "encoding":
+                        problems.add(f"`{norm(n)[:60]}` stores something other than the configured `encoding` pairs")
+                    stored = True
+                elif norm(n.func) == "mimetypes.init":
+                    inited = True
+                    if not (n.args and _config_key(n.args[0], f, e.defs) == "mimetypes"):
+                        problems.add("mimetypes.init() is not given the configured `mimetypes` files")
+                    if any(k.arg is None or k.arg == "files" for k in n.keywords) and not n.args:
+                        problems.discard("mimetypes.init() is not given the configured `mimetypes` files")
+                        kw = next((k.value for k in n.keywords if k.arg == "files"), None)
+                        if kw is None or _config_key(kw, f, e.defs) != "mimetypes":
+                            problems.add("mimetypes.init() is not given the configured `mimetypes` files")
+            if e.kind == "assign" and isinstance(n, ast.Assign):
+                for t in n.targets:
+                    if isinstance(t, ast.Subscript) and norm(t.value) == TABLE:
+                        stored = True
+                        if not cleared:
+                            problems.add("configured encodings are stored without the built-in table having been emptied first")
+                        # the stored pair comes from iterating the configured value
+                        loop = next((l for l in ast.walk(f.node) if isinstance(l, ast.For) and any(x is n for x in ast.walk(l))), None)
+                        names = {x.id for x in ast.walk(loop.target) if isinstance(x, ast.Name)} if loop is not None else set()
+                        used = {x.id for x in ast.walk(n) if isinstance(x, ast.Name) and isinstance(x.ctx, ast.Load)} - {"mimetypes"}
+                        if loop is None or not used <= names or _config_key(loop.iter, f, e.defs) != "encoding":
+                            problems.add(f"`{norm(n)[:60]}` stores something other than the configured `encoding` pairs")
+                    if norm(t) == TABLE:
+                        problems.add("the module-level name is rebound; mimetypes looks types up in its own database object, not in that name")
+        if not cleared:
+            problems.add("a start-up path leaves Python's built-in encodings table in place")
+        if not inited:
+            problems.add("a start-up path never loads the configured type files")
+        n_ok += 1
+    if not n_ok:
+        problems.add("no completing path")
+    rep.add(rule, f"{f.qualname}: encodings table emptied then filled from `encoding`; type files from `mimetypes`", not problems,
+            ctx.where(f), "; ".join(sorted(problems)), key=f"{rule}|init_mimetypes")
+    # run by start-up
+    init = next((x for x in prog.all_functions() if x.qualname == "initialization.initialize"), None)
+    called = init is not None and any(isinstance(n, ast.Call) and (dotted(n.func) or "").split(".")[-1] == "init_mimetypes" for n in ast.walk(init.node))
+    rep.add(rule, "start-up sequence runs init_mimetypes", called, ctx.where(init) if init else "pygopherd/initialization.py",
+            "" if called else "initialize() no longer calls init_mimetypes(): the configured tables are never installed", key=f"{rule}|startup")
+
+
 def check(ctx, rep):
     prog = ctx.prog
     eff = Effects(prog, ctx.resolver)
+    rep.rule("R04f", "MIME tables are the configured ones: encodings table emptied then filled from `encoding`, type files from `mimetypes`, run at start-up", floor=2)
+    mime_table_obligations(ctx, rep, "R04f")
     rep.rule("R04a", "copy loop: 'rb' open in a with; each chunk written once unchanged; loop ends only on an empty read", floor=1)
     rep.rule("R04b", "Gopher+ length: transforming handlers leave size unset; generated menus use the unknown-length marker", floor=5)
     rep.rule("R04c", "HTTP HEAD: no body-producing call reachable; header writes independent of the method", floor=1)
@@ -313,32 +414,61 @@ def check(ctx, rep):
     if hw is None:
         rep.fail("R04e", "WAPProtocol.handlerwrite", detail="WAP text conversion not found")
     else:
+        from ..facts import expand_ast as _ea
+        from ..structure import helper_calls
+
         problems = []
         n_split = 0
-        for n in ast.walk(hw.node):
-            if isinstance(n, ast.Call) and isinstance(n.func, ast.Attribute):
-                a = n.func.attr
-                if a in ("splitlines",):
-                    n_split += 1
-                    problems.append(f"`{norm(n)[:50]}` also breaks lines at CR, VT, FF, FS/GS/RS, NEL, U+2028/9 and drops them: one document line becomes several WML lines")
-                elif a in ("split", "rsplit", "partition") and n.args and isinstance(n.args[0], ast.Constant) and n.args[0].value not in ("\n", b"\n"):
-                    if "line" in norm(n.func.value) or "text" in norm(n.func.value) or "fakefile" in norm(n.func.value):
-                        problems.append(f"`{norm(n)[:50]}` splits the document at something other than LF")
-                elif a in ("split",) and not n.args and ("text" in norm(n.func.value) or "getvalue" in norm(n.func.value)):
-                    problems.append(f"`{norm(n)[:50]}` splits at arbitrary whitespace")
-                elif a in ("readline", "readlines"):
-                    n_split += 1
-                    # must read from a *binary* buffer (text wrappers translate newlines)
+        funcs = [hw] + [g for g, _, _, _ in helper_calls(prog, ctx.resolver, hw, wap, depth=2)]
+        for fn in funcs:
+            # binary buffers: locals assigned from io.BytesIO()
+            bufs = set()
+            for d in ast.walk(fn.node):
+                if isinstance(d, ast.Assign) and isinstance(d.value, ast.Call) and (dotted(d.value.func) or "").split(".")[-1] == "BytesIO":
+                    bufs.update(t.id for t in d.targets if isinstance(t, ast.Name))
+            if not bufs:
+                continue
+
+            from ..facts import single_defs as _sd
+
+            defs_nobuf = {k: v for k, v in _sd(fn).items() if k not in bufs}
+
+            def _ea(expr, _fn=None, _d=defs_nobuf):
+                from ..facts import expand_ast as _x
+
+                return _x(expr, fn, _d) if _d else expr
+
+            def from_buf(expr):
+                e = _ea(expr, fn)
+                return any(isinstance(x, ast.Name) and x.id in bufs for x in ast.walk(e))
+
+            for n in ast.walk(fn.node):
+                if isinstance(n, ast.Call) and isinstance(n.func, ast.Attribute):
+                    a = n.func.attr
                     recv = n.func.value
-                    src = recv
-                    if isinstance(recv, ast.Name):
-                        for d in ast.walk(hw.node):
-                            if isinstance(d, ast.Assign) and any(isinstance(t, ast.Name) and t.id == recv.id for t in d.targets):
-                                src = d.value
-                    if not (isinstance(src, ast.Call) and (dotted(src.func) or "").endswith("BytesIO")):
-                        problems.append(f"lines are read from `{norm(src)[:40]}`, not from a binary BytesIO buffer (newline translation would merge/split lines)")
-            if isinstance(n, ast.For) and ("fakefile" in norm(n.iter)) and not isinstance(n.iter, ast.Call):
-                n_split += 1
+                    if a == "splitlines" and from_buf(recv):
+                        n_split += 1
+                        problems.append(f"`{norm(n)[:50]}` also breaks lines at CR, VT, FF, FS/GS/RS, NEL, U+2028/9 and drops them: one document line becomes several WML lines")
+                    elif a in ("split", "rsplit") and from_buf(recv) and not (isinstance(recv, ast.Name) and recv.id in bufs):
+                        if n.args and isinstance(n.args[0], ast.Constant) and n.args[0].value in ("\n", b"\n") and len(n.args) == 1:
+                            n_split += 1
+                        elif not n.args:
+                            problems.append(f"`{norm(n)[:50]}` splits the document at arbitrary whitespace")
+                        elif isinstance(n.args[0], ast.Constant) and n.args[0].value in ("\r\n", b"\r\n", "\r", b"\r"):
+                            problems.append(f"`{norm(n)[:50]}` splits the document at something other than LF")
+                    elif a in ("readline", "readlines") and not n.args:
+                        if isinstance(recv, ast.Name) and recv.id in bufs:
+                            n_split += 1
+                        elif from_buf(recv) or isinstance(recv, ast.Name):
+                            n_split += 1
+                            problems.append(f"lines are read from `{norm(_ea(recv, fn))[:40]}`, not from the binary BytesIO buffer (newline translation would merge/split lines)")
+                if isinstance(n, (ast.For, ast.comprehension)) and isinstance(n.iter, ast.Name):
+                    if n.iter.id in bufs:
+                        n_split += 1  # iterating a binary buffer yields LF-terminated lines
+                    elif from_buf(n.iter) and isinstance(_ea(n.iter, fn), ast.Call) and isinstance(_ea(n.iter, fn).func, ast.Attribute) \
+                            and _ea(n.iter, fn).func.attr not in ("split", "rsplit", "splitlines", "readlines") and "Wrapper" in norm(_ea(n.iter, fn)):
+                        n_split += 1
+                        problems.append(f"lines are iterated from `{norm(_ea(n.iter, fn))[:40]}`, a text wrapper (newline translation would merge/split lines)")
         if n_split == 0:
             problems.append("no LF-based line iteration found in the text conversion")
         rep.add("R04e", f"{hw.qualname}: lines split at LF only", not problems, ctx.where(hw), "; ".join(sorted(set(problems))), key="R04e|handlerwrite")
@@ -361,22 +491,31 @@ def check(ctx, rep):
         h = prog.resolve_method(P, "handle")
         if h is None or h.cls is not P:
             continue
-        adj = [n for n in ast.walk(h.node) if isinstance(n, ast.Call) and isinstance(n.func, ast.Attribute)
-               and n.func.attr in ("adjustmimetype", "adjust_mimetype")]
-        if not adj:
+        from ..structure import bind_params, helper_calls
+
+        def _adj_in(fn):
+            return [n for n in ast.walk(fn.node) if isinstance(n, ast.Call) and isinstance(n.func, ast.Attribute)
+                    and n.func.attr in ("adjustmimetype", "adjust_mimetype")]
+
+        sites = [(a, h, {}) for a in _adj_in(h)]
+        for g, cn, caller, bind in helper_calls(prog, ctx.resolver, h, P, skip=("adjustmimetype", "adjust_mimetype")):
+            if caller is h:
+                sites.extend((a, g, bind) for a in _adj_in(g))
+        if not sites:
             continue
         problems = []
-        for a in adj:
+        for a, fn, bind in sites:
             if dotted(a.func.value) != "self":
                 problems.append("the MIME type is adjusted by another object's function")
             if not (a.args and isinstance(a.args[0], (ast.Call, ast.Name))):
                 problems.append("adjust function is not applied to the entry's type")
             src = a.args[0] if a.args else None
             if isinstance(src, ast.Name):
-                for n in ast.walk(h.node):
+                for n in ast.walk(fn.node):
                     if isinstance(n, ast.Assign) and any(isinstance(t, ast.Name) and t.id == src.id for t in n.targets) and n.value is not a:
                         src = n.value
                         break
+            src = bind_params(src, bind) if src is not None else None
             if not (isinstance(src, ast.Call) and isinstance(src.func, ast.Attribute) and src.func.attr == "getmimetype"
                     and norm(src.func.value) == "self.entry"):
                 problems.append(f"the advertised type is derived from `{norm(src)[:40]}`, not from self.entry.getmimetype()")
